@@ -247,7 +247,7 @@ def plan_c07(tier, seed):
     hs.append(S("c07_ga_empty_extensions", "GetAssertion flavour with an empty extension map", sym=37))
     for m in range(8):
         hs.append(S("c07_mc_ext_mask%d" % m, "MakeCredential flavour, attested data + extension outputs subset %d (credProtect|hmac-secret|largeBlobKey)" % m, sym=80,
-                    tiers=BOTH if m in (0, 3, 5, 7) else (T,)))
+                    tiers=BOTH if m in (0, 1, 6) else (T,)))
     hs.append(S("c07_mc_ext_overflow", "extension map pushes the total over 676 bytes", fsa=700, sym=670, timeout=2400, tiers=(T,)))
     return hs
 
@@ -374,10 +374,14 @@ fn c02_parameterless() {
 
 
 # ---------------------------------------------------------------------------------- C05
-def pick(items, tier, seed, k):
-    """quick tier: a seed-determined sample of k items (evenly spread); thorough: all"""
+def pick(items, tier, seed, k, kt=None):
+    """quick tier: a seed-determined sample of k items (evenly spread); thorough: all (or kt items when given)"""
     items = list(items)
-    if tier == T or len(items) <= k:
+    if tier == T and kt is not None:
+        k = kt
+    elif tier == T:
+        return items
+    if len(items) <= k:
         return items
     step = len(items) / float(k)
     off = seed % max(1, int(step))
@@ -482,10 +486,10 @@ def plan_c05(tier, seed):
         k_each = {"quick": 6}.get(tier, 10 ** 6)
         chosen = []
         chosen += pick([f for f in faults if f[0].startswith("missing")], tier, seed, 3)
-        chosen += pick([f for f in faults if f[0].startswith("dup")], tier, seed, 2)
-        chosen += pick([f for f in faults if f[0].startswith("nonmin")], tier, seed, 2)
-        chosen += pick([f for f in faults if f[0].startswith("indef")], tier, seed, 1)
-        chosen += pick([f for f in faults if f[0].startswith("type")], tier, seed, 4)
+        chosen += pick([f for f in faults if f[0].startswith("dup")], tier, seed, 2, 14)
+        chosen += pick([f for f in faults if f[0].startswith("nonmin")], tier, seed, 2, 14)
+        chosen += pick([f for f in faults if f[0].startswith("indef")], tier, seed, 1, 10)
+        chosen += pick([f for f in faults if f[0].startswith("type")], tier, seed, 4, 40)
         chosen += [f for f in faults if f[0].startswith("unknown") and (tier == T or tag in ("lb", "cm"))]
         for fname, want, fdesc, change in chosen:
             if isinstance(change, tuple) and change[0] == "TYPE":
@@ -494,7 +498,7 @@ def plan_c05(tier, seed):
             else:
                 h = status_harness("c05_%s_%s" % (tag, fname), "C05", cmd, base_var(), change, want, "%s: %s" % (variant, fdesc))
             add(h)
-        for cut in pick(cuts, tier, seed, 2):
+        for cut in pick(cuts, tier, seed, 2, 12):
             add(status_harness("c05_%s_trunc_%d" % (tag, cut), "C05", cmd, base_var(),
                                (lambda cut=cut: (lambda t: C.encode(t)[:cut]))(), 0x12,
                                "%s: parameter map truncated after %d of %d bytes" % (variant, cut, len(enc))))
@@ -973,11 +977,11 @@ def plan_c13(tier, seed):
                   "TryFrom<PublicKeyCredentialParameters> for KnownPublicKeyCredentialParameters", "webauthn::KNOWN_ALGS",
                   "impl Deserialize for ctap2::AttestationFormatsPreference (visit_seq)", "AttestationStatementFormat::try_from(&str)"],
     "bounds": "parameter lists over the alphabet {ES256, EdDSA, unknown algorithm, known algorithm + unknown type}: exhaustively all "
-              "lists of length 0..=2 (quick) / 0..=4 (thorough), longer lists of 12, 13 and 20 entries; the unknown algorithm's argument "
+              "lists of length 0..=2 (quick) / 0..=3 (thorough), longer lists of 12, 13 and 20 entries; the unknown algorithm's argument "
               "symbolic over a whole 2-, 3- or 5-byte head class of either sign, the unknown type's 10 bytes symbolic (!= \"public-key\"); "
               "format lists over {packed, none, tpm, symbolic 6-byte text != packed, symbolic 4-byte text != none}: all lists of "
-              "length 0..=2 (quick) / 0..=4 (thorough)",
-    "out": "exhaustive lists of length 5-6; unknown algorithm identifiers inside -24..=23; type strings other than 10 bytes long",
+              "length 0..=2 (quick) / 0..=3 (thorough)",
+    "out": "exhaustive lists of length 4-6; unknown algorithm identifiers inside -24..=23; type strings other than 10 bytes long",
 })
 def plan_c14(tier, seed):
     import itertools
@@ -992,7 +996,7 @@ def plan_c14(tier, seed):
 
     fp = spec.TFilteredParams()
     alpha = ["es256", "eddsa", "unkalg", "unktype"]
-    maxlen = 2 if tier == Q else 4
+    maxlen = 2 if tier == Q else 3
     lists = [()]
     for n in range(1, maxlen + 1):
         lists += list(itertools.product(alpha, repeat=n))
@@ -1219,12 +1223,12 @@ fn c04_skipper_deep_nesting() {
                   "visitors of every request and nested type", "webauthn custom deserialisers (truncate, floor_char_boundary with its unsafe "
                   "unwrap_unchecked, skip-if-too-long, filtered parameters)", "AttestationFormatsPreference::deserialize"],
     "bounds": "Kani's implicit checks (panic/unwrap/expect, slice index, arithmetic overflow, invalid pointer, unreachable_unchecked) and "
-              "unwinding assertions (termination) on: (1) 16 leaf/nested decoders on FULLY symbolic bytes (4-10 bytes, symbolic length) incl. "
+              "unwinding assertions (termination) on: (1) 15 leaf decoders on FULLY symbolic bytes (4-10 bytes, symbolic length) incl. "
               "determinism; (2) the whole decoder on the full-presence template of every command truncated at enumerated cut points (item "
               "boundaries -1/0/+1), all contents symbolic incl. ill-formed UTF-8; (3) the whole decoder on 1 and 2 (thorough: 3 for the small "
               "commands) fully symbolic payload bytes after each parameter-bearing command byte; (4) members grown far beyond capacity (300-byte "
-              "names/icons, 257-byte rp id, 17/33-entry lists, 33-byte type strings); (5) the skipper on a fully symbolic 3-byte item and on "
-              "64-deep nesting; every status observed is asserted to be 0x01/0x12/0x14",
+              "names/icons, 257-byte rp id, 17/33-entry lists, 33-byte type strings); (5) the skipper on 64-deep concrete nesting (a fully symbolic item through the recursive skipper exhausts memory "
+              "even at 3 bytes: outside the bound); every status observed is asserted to be 0x01/0x12/0x14",
     "out": "arbitrary byte strings longer than 10 bytes that are not a template with symbolic contents; fully symbolic payloads longer than "
            "2-3 bytes through the whole decoder (measured intractable); stack exhaustion on 7609-byte nesting (a resource property CBMC "
            "does not model)",
@@ -1280,11 +1284,12 @@ def plan_c04(tier, seed):
         add(status_harness("c04_grow_%s_%d" % (fld, cnt), "C04", cmd, Variation(present={tag: [fld]}, default_present="none", intclass=0, lens=lens, seed=seed),
                            (lambda t: t), None, "%s with %d entries: rejected, never a crash" % (fld, cnt), stub="assume", timeout=2400), configs="first")
     write_gen("C04", hs, prelude=C04_PRELUDE + _c04_symbolic_payloads(tier))
+    # (c04_leaf_params and c04_skipper_symbolic_item exist in the module but are not planned: a symbolic-LAYOUT item through the
+    # recursive skipper exhausts 14 GB even at 3 bytes; skipped values with concrete layout and symbolic contents are C06's subject)
     leafs = ["u8", "u32", "u64", "i32", "bool", "str", "bytes_ref", "bytes4", "string4", "bytearray4", "icon", "version", "attfmt", "pin_subcommand",
-             "attfmtpref", "params"]
+             "attfmtpref"]
     for n in leafs:
         metas.append(S("c04_leaf_" + n, "cbor_deserialize::<%s> on fully symbolic bytes of symbolic length" % n, configs="first", sym=8, timeout=2400))
-    metas.append(S("c04_skipper_symbolic_item", "unknown member holding a fully symbolic 3-byte item", configs="first", sym=3, timeout=2400))
     metas.append(S("c04_skipper_deep_nesting", "unknown member nested 64 deep (arrays/tags)", configs="first", fsa=80))
     for cmd in (0x06, 0x0A, 0x0C, 0x41):     # 0x01 / 0x02: out of memory already with one symbolic payload byte
         for n in ((1, 2, 3) if tier == T and cmd in (0x06, 0x0A, 0x0C) else (1, 2)):
@@ -1363,7 +1368,7 @@ macro_rules! int_head {
             let n = if xi >= 0 { ref_head(0, xi as u64, &mut exp) } else { ref_head(1, (-1 - xi) as u64, &mut exp) };
             assert!(out.len() == n, "shortest-form integer head (length)");
             assert!(eq(out, &exp[..n]), "shortest-form integer head (bytes)");
-            kani::cover!(n == 9, "9-byte head reachable");
+            kani::cover!(n > 1, "multi-byte head reachable");
             kani::cover!(n == 1, "1-byte head reachable");
         }
     };
@@ -1457,18 +1462,25 @@ def plan_c03(tier, seed):
     for kind in ("p256", "ecdh", "ed25519", "totp"):
         var = Variation(present={"cmresp": ["public_key"]}, default_present="none", intclass=0, seed=seed, choose={"cmresp.public_key": kind})
         add(encode_harness("c03_cose_%s" % kind, "C03", "CredentialManagement", var, "CredentialManagement response carrying a %s COSE key (1, 3, -1, -2, -3 order)" % kind, via="direct"))
-    # integer-keyed response maps: everything present
-    for kind in ("ClientPin", "CredentialManagement", "GetInfo", "MakeCredential", "GetAssertion"):
+    # integer-keyed response maps: everything present where that is tractable (ClientPin, MakeCredential, GetInfo without the
+    # feature-gated members); the all-members instances of CredentialManagement / GetAssertion / GetInfo+get-info-full exhaust
+    # memory (> 14 GB), so those maps are covered by pairs of members (all pairs in the thorough tier)
+    for kind in ("ClientPin", "MakeCredential", "GetInfo"):
         schema = spec.RESPONSES[kind]
         opts = [f.rust for f in schema.fields if not f.required and not f.private and f.feature is None]
         var = Variation(present={schema.name: opts}, default_present="none", intclass=0, maxlen=4, text="ascii", seed=seed)
         add(encode_harness("c03_resp_%s_all" % schema.name, "C03", kind, var, "%s response with every feature-independent member set (nested optional members absent)" % kind,
-                           via="direct", timeout=2400), configs="all")
-        optsf = [f.rust for f in schema.fields if not f.required and not f.private]
-        if optsf != opts:
-            var = Variation(present={schema.name: optsf}, default_present="none", intclass=0, maxlen=4, text="ascii", seed=seed)
-            add(encode_harness("c03_resp_%s_all_feat" % schema.name, "C03", kind, var, "%s response with every member incl. feature-gated ones set" % kind,
-                               via="direct", timeout=2400))
+                           via="direct", timeout=2400), configs="first")
+    for kind in ("CredentialManagement", "GetAssertion", "GetInfo"):
+        schema = spec.RESPONSES[kind]
+        opts = [f.rust for f in schema.fields if not f.required and not f.private]
+        pairs = list(itertools.combinations(opts, 2))
+        if kind == "GetInfo":
+            pairs = [(a, b) for a, b in pairs if schema.field(a).feature or schema.field(b).feature]
+        for a, b in pick(pairs, tier, seed, 6, 60):
+            var = Variation(present={schema.name: [a, b]}, default_present="none", intclass=0, maxlen=4, text="ascii", seed=seed)
+            add(encode_harness("c03_resp_%s_pair_%s__%s" % (schema.name, a, b), "C03", kind, var,
+                               "%s response with members %s and %s: ascending integer keys" % (kind, a, b), via="direct"))
     write_gen("C03", hs, prelude=C03_PRELUDE)
     for n in ("u8", "u16", "u32", "u64", "usize", "i8", "i16", "i32", "i64"):
         metas.append(S("c03_int_" + n, "cbor_serialize of every %s value: shortest-form head" % n, configs="first", sym=8))
@@ -1527,12 +1539,18 @@ def _roundtrip_en_de(name, prop, schema, var, desc, tiers=BOTH, timeout=1800):
     m = schema.make(ctx, schema.name)
     v = schema.build(ctx, m)
     node = schema.cbor_ser(m) if hasattr(schema, "cbor_ser") else schema.cbor(m)
-    n = len(C.encode(node))
+    exp = C.encode(node)
+    n = len(exp)
     h.requires = tuple(sorted(ctx.requires))
     h.sample = node.describe()
+    h.add(*h.array_literal("exp", exp))
     h.add("let mut outbuf = [0u8; %d];" % (n + 8))
     h.add("let out = match cbor_serialize(&%s, &mut outbuf) { Ok(o) => o, Err(_) => { assert!(false, \"value must encode\"); return; } };" % v)
-    h.add("let r: Result<%s, _> = cbor_deserialize(out);" % schema.rust)
+    # The bytes the encoder produced have symbolic layout as far as CBMC can tell and cannot be fed to the decoder
+    # (measured: out of memory even for an empty response).  They are first proved equal to the reference encoding
+    # `exp`; decoding `exp` is then decoding `out`.
+    h.add('assert!(out.len() == exp.len() && eq(out, &exp), "encoding differs from the reference encoding");')
+    h.add("let r: Result<%s, _> = cbor_deserialize(&exp);" % schema.rust)
     h.add("match r {")
     h.add("    Ok(val) => {")
     for l in schema.check(ctx, "val", m):
@@ -1733,8 +1751,8 @@ fn c16_large_blob_constant() {
                   "sizes::LARGE_BLOB_MAX_FRAGMENT_LENGTH"],
     "bounds": "the SAME feature-independent instances (requests: every command with no / all feature-independent optional parameters; "
               "responses: GetInfo, CredentialManagement, ClientPin, MakeCredential extensions, CtapOptions with every feature-independent "
-              "member) are decided in EACH of the 8 combinations of get-info-full / large-blobs / third-party-payment against one "
-              "feature-free oracle encoding (equality to a common oracle in A and in B implies A and B agree); plus, per configuration, "
+              "member) are decided in EACH of the 8 combinations (quick tier: the 5 configurations with no / exactly one / all features) of get-info-full / "
+              "large-blobs / third-party-payment against one feature-free oracle encoding (equality to a common oracle in A and in B implies A and B agree); plus, per configuration, "
               "the feature-gated members under their own specification keys; contents symbolic",
     "out": "std / arbitrary (no wire effect: `std` only removes no_std, `arbitrary` only adds impls; checked to build at the all-on corner "
            "by C19's configuration); instances beyond the listed ones",
@@ -1754,8 +1772,8 @@ def plan_c16(tier, seed):
     for cmd, tag in ((0x0C, "lb"), (0x06, "cp"), (0x0A, "cm"), (0x02, "ga"), (0x01, "mc")):
         schema, variant = spec.REQUESTS[cmd]
         opts = [f.rust for f in schema.fields if not f.required and not f.private]
-        if tier == Q and tag in ("lb", "cp"):
-            continue
+        if tier == Q:
+            continue     # quick: the feature-gated members of requests live in the nested extension maps, decoded stand-alone below
         var = Variation(present={schema.name: opts}, default_present="all", intclass=0, seed=seed, maxlen=12)
         add(decode_harness("c16_req_%s_common" % tag, "C16", cmd, var,
                            "%s request using only feature-independent members decodes to the same values in every configuration" % variant,
@@ -1764,14 +1782,25 @@ def plan_c16(tier, seed):
     for kind, tag in (("GetInfo", "gi"), ("CredentialManagement", "cmresp"), ("ClientPin", "cpresp")):
         schema = spec.RESPONSES[kind]
         opts = [f.rust for f in schema.fields if not f.required and not f.private and f.feature is None]
-        var = Variation(present={schema.name: opts}, default_present="all", intclass=0, maxlen=4, text="ascii", seed=seed)
-        add(encode_harness("c16_resp_%s_common" % tag, "C16", kind, var,
-                           "%s response with every feature-independent member encodes to the same bytes in every configuration" % kind,
-                           via="direct", timeout=2400))
+        # all feature-independent members, three at a time (the all-at-once instance of GetInfo / CredentialManagement
+        # exhausts memory): every member appears in one chunk, so a renumbering caused by a gated member is seen
+        chunks = [opts[i:i + 3] for i in range(0, len(opts), 3)]
+        for ci, ch in enumerate(chunks):
+            var = Variation(present={schema.name: ch}, default_present="none", intclass=0, maxlen=4, text="ascii", seed=seed)
+            add(encode_harness("c16_resp_%s_common_%d" % (tag, ci), "C16", kind, var,
+                               "%s response with the feature-independent members %s encodes to the same bytes in every configuration" % (kind, ",".join(ch)),
+                               via="direct", timeout=2400))
     for schema, tag in ((spec.CTAP_OPTIONS, "ctapoptions"), (spec.MC_EXT, "mcext"), (spec.GA_EXT_OUT, "gaextout")):
         opts = [f.rust for f in schema.fields if not f.required and f.feature is None]
         var = Variation(present={schema.name: opts}, default_present="all", intclass=0, maxlen=4, text="ascii", seed=seed)
         add(value_harness("c16_val_%s_common" % tag, "C16", schema, var, "%s with every feature-independent member: same bytes in every configuration" % tag))
+    # decode side of the extension maps (the only request types with a feature-gated member)
+    from .gen_req import nested_harness
+    for schema, tag in ((spec.MC_EXT, "mcext"), (spec.GA_EXT_IN, "gaext"), (spec.CM_PARAMS, "cmparams")):
+        opts = [f.rust for f in schema.fields if not f.required and f.feature is None]
+        var = Variation(present={schema.name: opts}, default_present="none", intclass=0, seed=seed, maxlen=8)
+        add(nested_harness("c16_dec_%s_common" % tag, "C16", schema, var,
+                           "%s with every feature-independent member decodes to the same values in every configuration" % tag))
     # feature members under their own keys (only in configurations that have them)
     feat = [("GetInfo", "gi", ["force_pin_change", "long_touch_for_reset", "certifications"]), ("CredentialManagement", "cmresp", ["third_party_payment"])]
     for kind, tag, members in feat:
@@ -1789,3 +1818,32 @@ def plan_c16(tier, seed):
     write_gen("C16", hs, prelude=C16_PRELUDE)
     metas.append(S("c16_large_blob_constant", "LARGE_BLOB_MAX_FRAGMENT_LENGTH per configuration; empty config encodes identically", configs="all8"))
     return metas
+
+
+# ---------------------------------------------------------------------------------- C19
+@register("C19", "c19", {
+    "functions": ["src/arbitrary.rs: every hand-written Arbitrary impl (rp/user entity, descriptor ref, filtered params, hmac-secret input, "
+                  "sub-command params, attestation formats preference, the five request structs, ctap1 register/authenticate) and helpers "
+                  "arbitrary_str / arbitrary_bytes / arbitrary_vec / arbitrary_byte_array / arbitrary_key / arbitrary_option",
+                  "derived Arbitrary for ctap1::Request, ctap2::Request, authenticator::Request, Operation, enums"],
+    "bounds": "input bytes FULLY symbolic with symbolic length <= N per generator (N = 72 for ctap1::Request, 24 hmac-secret input and "
+              "large-blobs request, 14 rp entity, 12 user entity/descriptor/params, 10 client-pin request, 8 formats preference; thorough "
+              "tier only: 6 sub-command params / cred-mgmt request, 4 get-assertion / make-credential requests, 2 for the derived "
+              "ctap2::Request and authenticator::Request enum wrappers)",
+    "out": "inputs longer than N bytes (the statement's 0..=4096); Debug formatting and dispatch of the generated value (fmt machinery is "
+           "out of CBMC's reach); PartialEq on the big request enums",
+    "assumptions": ["core::str::from_utf8 replaced by the reference validator stub (valid_up_to/error_len equivalence to std proved for "
+                    "all strings <= 6 bytes)"],
+})
+def plan_c19(tier, seed):
+    quick = ["rp_entity", "user_entity", "descriptor_ref", "filtered_params", "hmac_secret_input", "att_formats_pref",
+             "large_blobs_request", "client_pin_request", "ctap1_request"]
+    # the generators below reach several nested generators from a symbolic variant/presence choice; they are decided only in
+    # the thorough tier, on very short inputs, and may remain undecided (reported as INCONCLUSIVE, never as held)
+    heavy = ["subcommand_params", "cred_mgmt_request", "get_assertion_request", "make_credential_request", "ctap2_request_enum",
+             "authenticator_request_enum"]
+    out = [S("c19_" + n, "<%s as Arbitrary>::arbitrary on fully symbolic bytes of symbolic length" % n, requires=["arbitrary"],
+             configs="first", timeout=2400, sym=12) for n in quick]
+    out += [S("c19_" + n, "<%s as Arbitrary>::arbitrary on fully symbolic bytes of symbolic length (very short inputs)" % n,
+              requires=["arbitrary"], configs="first", timeout=1800, sym=4, tiers=(T,)) for n in heavy]
+    return out
